@@ -27,7 +27,7 @@ PROPS = {
                       '(known finding, replayed on the code). Partial: liveness proper (timers fire, workers run) is a fairness assumption.',
         'level_note': 'Trusted: Coq kernel; hand-written LTS; scheduling abstraction; harness timing.',
     },
-    'C09': {   ' || sidecarbinary, in every run: `kvass` is built from the working tree (cmd/kvass is where the managers are wired and the store is loaded) and `kvass sidecar` is started on scratch store directories with a stub Prometheus: a store written by a real targets manager is resumed (the API lists its targets); an old-format store with the reload failing at the first start is served by that start and by the next onealways_cmds': [['sidecarbinary']],
+    'C09': {   'always_cmds': [['sidecarbinary']],
        
         'engines': [('store', 200, 4000, ['-shardsize', '100']), ('sidecar', 200, 4000, ['-propok', 'c10_case', '-shardsize', '100'])],
         'rule': 'store engine: pairs of distinct assignments (0-2 jobs incl. names with spaces/quotes, 0-3 targets each, 1/25 with 300-2000 targets; '
@@ -35,7 +35,7 @@ PROPS = {
                 'is acknowledged, then a CHILD PROCESS runs the real UpdateTargets(new) under RLIMIT_FSIZE = N (N in {0, 1, len-1, len, len+10, '
                 'uniform}; SIGXFSZ default or ignored), the parent starts a fresh TargetsManager twice (Load + TargetsInfo) and classifies what it '
                 'resumes against un-crashed reference runs: old / new / other / load error. The model decides from the encoded lengths. '
-                'non-trivial = the write was interrupted (N < encoded length). || sidecar engine: restarts inside generated histories (see C10)',
+                'non-trivial = the write was interrupted (N < encoded length). || sidecar engine: restarts inside generated histories (see C10) || sidecarbinary, in every run: `kvass` is built from the working tree (cmd/kvass is where the managers are wired and the store is loaded) and `kvass sidecar` is started on scratch store directories with a stub Prometheus: a store written by a real targets manager is resumed (the API lists its targets); an old-format store with the reload failing at the first start is served by that start and by the next one',
         'theorems': 'C09_resume C09_atomic C09_old_or_new C09_next_save C09_resumed_state C09_store_is_last_ack',
         'trusted_base': ['Model/Store.v: WriteFile = truncate + byte-wise appends (any prefix may survive), Rename atomic: OS contract, assumed',
                          'the JSON codec is abstract (dec (enc v) = Some v): Go encoding/json both ways, validated differentially on escaping-heavy data',
